@@ -1,5 +1,5 @@
 use crate::{
-    annotations::{extract::FromStrHex, Annotations},
+    annotations::{extract::parse_field_value, Annotations},
     builtins::Builtin,
     layout::Layout,
     stark_proof::{self, *},
@@ -181,7 +181,7 @@ impl StarkProof {
         let (padding_addr, padding_value) = match public_input.public_memory.first() {
             Some(m) => (
                 m.address,
-                BigUint::from_str_hex(&m.value).ok_or(anyhow::anyhow!("Invalid memory value"))?,
+                parse_field_value(&m.value).ok_or(anyhow::anyhow!("Invalid memory value"))?,
             ),
             None => anyhow::bail!("Invalid public memory"),
         };
@@ -214,7 +214,7 @@ impl StarkProof {
             .map(|m| {
                 Ok(PubilcMemoryCell {
                     address: m.address,
-                    value: BigUint::from_str_hex(&m.value)
+                    value: parse_field_value(&m.value)
                         .ok_or(anyhow::anyhow!("Invalid memory value"))?,
                 })
             })
